@@ -115,6 +115,9 @@ impl<'tcx> Cx<'tcx> {
         // def_path_str drops disambiguators: same-named items declared in sibling blocks (macro expansions)
         // would collide, so non-zero disambiguators of named value/type components are appended as `#d`.
         let mut s = self.tcx.def_path_str(did);
+        if did.is_local() || self.tcx.crate_name(did.krate).as_str() == "x86_64" {
+            s = canon_path(&s);
+        }
         let dp = self.tcx.def_path(did);
         let mut sfx = String::new();
         for c in dp.data.iter() {
@@ -414,7 +417,8 @@ impl<'tcx> Cx<'tcx> {
                         let v = def.variant(*vidx);
                         let names: Vec<String> = v.fields.iter().map(|f| esc(f.name.as_str())).collect();
                         format!(
-                            "\"ak\":\"adt\",\"adt\":{},\"variant\":{},\"vi\":{},\"fnames\":[{}]",
+                            "\"ak\":\"adt\",\"enum\":{},\"adt\":{},\"variant\":{},\"vi\":{},\"fnames\":[{}]",
+                            def.is_enum(),
                             esc(&self.path(*did)),
                             esc(v.name.as_str()),
                             vidx.as_usize(),
@@ -685,7 +689,7 @@ impl<'tcx> Cx<'tcx> {
         let mut out = format!(
             "{{\"ty\":{},\"tys\":{},\"size\":{},\"align\":{}",
             self.ty(ty),
-            esc(&format!("{}", ty)),
+            esc(&anon_lifetimes(&format!("{}", ty))),
             lay.size.bytes(),
             lay.align.abi.bytes()
         );
@@ -732,6 +736,104 @@ impl<'tcx> Cx<'tcx> {
         out.push('}');
         Some(out)
     }
+}
+
+/// Item paths that do not depend on where an `impl` block lives or how its lifetimes are named: rustc prints
+/// `module::<impl Trait for Type>::item` when the block is in neither the type's nor the trait's module and `<Type as Trait>::item`
+/// otherwise (`module::<impl Type>::item` / `Type::<args>::item` for inherent blocks); the second form is used throughout, and every
+/// named lifetime is printed as `'_`. Blocks inside anonymous constants (`const _: () = { impl .. }`, what `bitflags!` and derives
+/// expand to) keep rustc's form: they cannot be moved without the macro invocation.
+fn canon_path(s: &str) -> String {
+    let s = anon_lifetimes(s);
+    let pos = match s.find("<impl ") {
+        Some(p) => p,
+        None => return s,
+    };
+    let prefix = &s[..pos];
+    if prefix.ends_with("_::") || prefix.contains('<') || prefix.contains('{') {
+        return s;
+    }
+    let b = s.as_bytes();
+    let mut depth = 0i32;
+    let mut end = None;
+    let mut i = pos;
+    while i < b.len() {
+        match b[i] {
+            b'<' => depth += 1,
+            b'>' if i > 0 && b[i - 1] == b'-' => {}
+            b'>' => {
+                depth -= 1;
+                if depth == 0 {
+                    end = Some(i);
+                    break;
+                }
+            }
+            _ => {}
+        }
+        i += 1;
+    }
+    let end = match end {
+        Some(e) => e,
+        None => return s,
+    };
+    let inner = &s[pos + 6..end];
+    let rest = &s[end + 1..];
+    // " for " outside any angle bracket separates trait and type
+    let ib = inner.as_bytes();
+    let mut depth = 0i32;
+    let mut split = None;
+    let mut i = 0;
+    while i < ib.len() {
+        match ib[i] {
+            b'<' | b'(' | b'[' => depth += 1,
+            b'>' if i > 0 && ib[i - 1] == b'-' => {}
+            b'>' | b')' | b']' => depth -= 1,
+            b' ' if depth == 0 && inner[i..].starts_with(" for ") => {
+                split = Some(i);
+                break;
+            }
+            _ => {}
+        }
+        i += 1;
+    }
+    let q = match split {
+        Some(k) => format!("<{} as {}>", &inner[k + 5..], &inner[..k]),
+        None => {
+            let first = inner.chars().next().unwrap_or('<');
+            if first.is_alphabetic() || first == '_' {
+                match inner.find('<') {
+                    Some(a) if inner.ends_with('>') => format!("{}::{}", &inner[..a], &inner[a..]),
+                    _ => inner.to_string(),
+                }
+            } else {
+                format!("<{}>", inner)
+            }
+        }
+    };
+    format!("{}{}", q, rest)
+}
+
+fn anon_lifetimes(s: &str) -> String {
+    let b: Vec<char> = s.chars().collect();
+    let mut out = String::with_capacity(s.len());
+    let mut i = 0;
+    while i < b.len() {
+        if b[i] == '\'' && i + 1 < b.len() && (b[i + 1].is_alphabetic() || b[i + 1] == '_') {
+            let mut j = i + 1;
+            while j < b.len() && (b[j].is_alphanumeric() || b[j] == '_') {
+                j += 1;
+            }
+            // a lifetime, not a char literal: no closing quote follows
+            if j >= b.len() || b[j] != '\'' {
+                out.push_str("'_");
+                i = j;
+                continue;
+            }
+        }
+        out.push(b[i]);
+        i += 1;
+    }
+    out
 }
 
 fn has_params<'tcx>(t: Ty<'tcx>) -> bool {
@@ -920,7 +1022,7 @@ impl rustc_driver::Callbacks for Cb {
             let parent_impl = tcx.impl_of_assoc(did).map(|i| {
                 let st = tcx.type_of(i).instantiate_identity().skip_norm_wip();
                 let tr = tcx.impl_opt_trait_ref(i).map(|t| format!("{:?}", t.instantiate_identity().skip_norm_wip()));
-                format!("{{\"self\":{},\"trait\":{}}}", esc(&format!("{}", st)), tr.map(|s| esc(&s)).unwrap_or("null".into()))
+                format!("{{\"self\":{},\"trait\":{}}}", esc(&anon_lifetimes(&format!("{}", st))), tr.map(|s| esc(&s)).unwrap_or("null".into()))
             });
             if !first {
                 out.push(',');
@@ -955,6 +1057,21 @@ impl rustc_driver::Callbacks for Cb {
                     .impl_opt_trait_ref(imp)
                     .map(|t| format!("{:?}", t.instantiate_identity().skip_norm_wip()))
                     .unwrap_or_default();
+                // the trait's own type arguments (without Self), e.g. [u64] for `impl Sub<u64> for Page<S>`
+                let mut trargs = Vec::new();
+                if let Some(t) = tcx.impl_opt_trait_ref(imp) {
+                    let tr = t.instantiate_identity().skip_norm_wip();
+                    for (i, g) in tr.args.iter().enumerate() {
+                        if i == 0 {
+                            continue;
+                        }
+                        if let Some(ty) = g.as_type() {
+                            trargs.push(cx.ty(ty));
+                        } else if let Some(c) = g.as_const() {
+                            trargs.push(format!("{{\"k\":\"constarg\",\"s\":{}}}", esc(&format!("{:?}", c))));
+                        }
+                    }
+                }
                 let mut items = Vec::new();
                 for it in tcx.associated_items(imp).in_definition_order() {
                     items.push(format!(
@@ -970,10 +1087,11 @@ impl rustc_driver::Callbacks for Cb {
                 first = false;
                 let _ = write!(
                     out,
-                    "\n{{\"trait\":{},\"self\":{},\"selfs\":{},\"traitref\":{},\"derived\":{},\"loc\":{},\"items\":[{}]}}",
+                    "\n{{\"trait\":{},\"targs\":[{}],\"self\":{},\"selfs\":{},\"traitref\":{},\"derived\":{},\"loc\":{},\"items\":[{}]}}",
                     esc(&tname),
+                    trargs.join(","),
                     cx.ty(st),
-                    esc(&format!("{}", st)),
+                    esc(&anon_lifetimes(&format!("{}", st))),
                     esc(&trf),
                     tcx.is_builtin_derived(imp),
                     esc(&cx.span_loc(tcx.def_span(imp))),
@@ -1011,6 +1129,58 @@ impl rustc_driver::Callbacks for Cb {
             }
             first = false;
             let _ = write!(out, "\n{{\"name\":{},\"repr\":{},\"fields\":[{}]}}", esc(&cx.path(did)), esc(&format!("{:?}", def.repr())), fields.join(","));
+        }
+        // modules with their visibility, and every re-export of a local item (`pub use`): lets the analysis name items by the
+        // path a user of the crate writes, independent of the private module an item is defined in
+        out.push_str("],\n\"modules\":[");
+        let mut first = true;
+        let mut mods: Vec<rustc_span::def_id::LocalDefId> = vec![rustc_span::def_id::CRATE_DEF_ID];
+        for ldid in tcx.hir_crate_items(()).definitions() {
+            if matches!(tcx.def_kind(ldid.to_def_id()), DefKind::Mod) {
+                mods.push(ldid);
+            }
+        }
+        for m in mods.iter() {
+            if !first {
+                out.push(',');
+            }
+            first = false;
+            let mp = if *m == rustc_span::def_id::CRATE_DEF_ID { String::new() } else { cx.path(m.to_def_id()) };
+            let _ = write!(out, "\n{{\"path\":{},\"public\":{}}}", esc(&mp), tcx.visibility(m.to_def_id()).is_public());
+        }
+        out.push_str("],\n\"reexports\":[");
+        let mut first = true;
+        for m in mods.iter() {
+            let mp = if *m == rustc_span::def_id::CRATE_DEF_ID { String::new() } else { cx.path(m.to_def_id()) };
+            for ch in tcx.module_children_local(*m).iter() {
+                if ch.reexport_chain.is_empty() {
+                    continue;
+                }
+                if let rustc_hir::def::Res::Def(kind, did) = ch.res {
+                    if !did.is_local() {
+                        continue;
+                    }
+                    if !matches!(
+                        kind,
+                        DefKind::Struct | DefKind::Enum | DefKind::Union | DefKind::Trait | DefKind::Fn | DefKind::Const { .. } | DefKind::Static { .. } | DefKind::TyAlias
+                    ) {
+                        continue;
+                    }
+                    if !first {
+                        out.push(',');
+                    }
+                    first = false;
+                    let alias = if mp.is_empty() { ch.ident.name.to_string() } else { format!("{}::{}", mp, ch.ident.name) };
+                    let _ = write!(
+                        out,
+                        "\n{{\"alias\":{},\"target\":{},\"public\":{},\"kind\":{}}}",
+                        esc(&alias),
+                        esc(&cx.path(did)),
+                        ch.vis.is_public(),
+                        esc(&format!("{:?}", kind).chars().take(10).collect::<String>())
+                    );
+                }
+            }
         }
         out.push_str("]}\n");
         let path = format!("{}/{}.{}.json", outdir, crate_name, std::process::id());
